@@ -73,6 +73,11 @@ Definition shape_ok (st : step) : bool :=
 Definition command_extra_deps (phony : bool) (nodes : list (N * bool)) (extra : list N) : list N :=
   map fst (filter (fun n => snd n || negb phony) nodes) ++ extra.
 
+(* the plural form cmds=[line1; line2; ...]: the loop runs over every word of EVERY line, in order (a file named in
+   two lines is listed twice) *)
+Definition command_lines_extra_deps (phony : bool) (lines : list (list (N * bool))) (extra : list N) : list N :=
+  command_extra_deps phony (concat lines) extra.
+
 (* Test.__init__: self.inputs = the Node arguments that have a creator *)
 Definition test_inputs (nodes : list (N * bool)) : list N := map fst (filter snd nodes).
 
